@@ -306,6 +306,8 @@ func CloneValue(v interface{}) interface{} {
 			out[k] = CloneValue(e)
 		}
 		return out
+	case *Func:
+		return "" // the copy is taken through the JSON text of the value, in which a function is the empty string
 	}
 	return v
 }
